@@ -274,7 +274,11 @@ class RFIMask:
         with h5py.File(filename, "w") as fp:
             fp.attrs["threshold"] = self.threshold
             for key, value in attrs.asdict(self.header).items():
-                if isinstance(value, np.integer | np.floating | int | float | str):
+                # A header rebuilt by from_file holds numpy scalars, np.bool_ included
+                if isinstance(
+                    value,
+                    np.integer | np.floating | np.bool_ | int | float | str,
+                ):
                     fp.attrs[key] = value
             # Astropy-valued header fields are stored in degrees
             fp.attrs["coord_ra_deg"] = self.header.coord.ra.deg
